@@ -32,6 +32,7 @@ mutual
 inductive Act where
   | call (body : Acts)        -- enter; defer leave; body
   | panicHere                 -- JS exception, interrupt panic, host panic … anything that unwinds
+  | catching (body : Acts)    -- try { body } catch …, or a host function swallowing the error of Value.Call
 inductive Acts where
   | nil
   | cons (a : Act) (rest : Acts)
@@ -50,6 +51,7 @@ def runAct (limit : Nat) : Act → Stack → Stack × Outcome
     | .ok s' =>
       let (s'', out) := runActs limit body s'
       (leave s'', out)                                -- deferred leave, whatever `out` is
+  | .catching body, s => ((runActs limit body s).1, .done)   -- the abnormal exit ends here; execution goes on
 def runActs (limit : Nat) : Acts → Stack → Stack × Outcome
   | .nil, s => (s, .done)
   | .cons a rest, s =>
@@ -62,5 +64,14 @@ end
 def nest : Nat → Act
   | 0 => .call .nil
   | d+1 => .call (.cons (nest d) .nil)
+
+/-- `k` overflows, each caught where it happened to be (depth `c` below the current scope) -/
+def caughtOverflows (limit : Nat) : Nat → Acts
+  | 0 => .nil
+  | k+1 => .cons (.catching (.cons (nest (limit + 3)) .nil)) (caughtOverflows limit k)
+
+/-- how many nested calls the limit admits from stack `s`: the d in 0 … limit+3 with `nest d` completing -/
+def admitted (limit : Nat) (s : Stack) : Nat :=
+  ((List.range (limit + 4)).filter (fun d => (runAct limit (nest d) s).2 == .done)).length
 
 end OttoVerif.C18
